@@ -502,9 +502,11 @@ class Model:
                     k = None
                     if call_name(call) == "self._retreat" and isinstance(a, ast.BinOp) and isinstance(a.op, ast.Sub) and norm(a.left) == "self._index" and isinstance(a.right, ast.Constant):
                         k = a.right.value
+                    elif call_name(call) == "self._retreat" and isinstance(a, ast.BinOp) and isinstance(a.op, ast.Sub) and isinstance(a.left, ast.Name) and isinstance(a.right, ast.Constant):
+                        k = ("saved", a.left.id, a.right.value)  # back to k tokens before a saved position
                     elif call_name(call) == "self._advance" and isinstance(a, ast.UnaryOp) and isinstance(a.op, ast.USub) and isinstance(a.operand, ast.Constant):
                         k = a.operand.value
-                    if isinstance(k, int) and k > 0:
+                    if (isinstance(k, int) and k > 0) or isinstance(k, tuple):
                         rel.append((call, k))
                 if not rel:
                     continue
@@ -512,7 +514,13 @@ class Model:
                 IN, _ = self.flow(g, g.entry, {})
                 for call, k in rel:
                     nodes = g.nodes_for(call)
-                    have = min((IN[x][0] for x in nodes if x in IN), default=0)
+                    if isinstance(k, tuple):
+                        # consumed since entry when the position was saved (0 if unknown)
+                        _tag, nm_, kk = k
+                        have = min((dict(IN[x][4]).get(nm_, 0) for x in nodes if x in IN), default=0)
+                        k = kk
+                    else:
+                        have = min((IN[x][0] for x in nodes if x in IN), default=0)
                     if have >= k or (f"{c.key}.{name}", norm(call)) in REVIEWED_MOVES:
                         continue  # reviewed: dominated by >= k tokens consumed inside the method
                     # returns reachable after the move: falsy, or reached after re-consuming at least what was un-read
@@ -1417,7 +1425,22 @@ def rule_b(ctx: Ctx) -> None:
                         )
                         # parameter of the method (e.g. helper taking the saved index)
                         is_param = base.id in [x.arg for x in md.args.args]
-                        if okv:
+                        back_k = a.right.value if isinstance(a, ast.BinOp) and isinstance(a.op, ast.Sub) and isinstance(a.right, ast.Constant) and isinstance(a.right.value, int) else 0
+                        if okv and back_k > 0:
+                            if g is None:
+                                g = model.cfg(md)
+                                locs = model.productive_locals(md)
+                                IN, _ = model.flow(g, g.entry, locs)
+                            saved_at = min((dict(IN[x][4]).get(base.id, 0) for x in g.nodes_for(call) if x in IN), default=0)
+                            credit = dispatch_credit(name)
+                            if saved_at + credit >= back_k:
+                                ctx.ok(inst, {"retreat": norm(call), "in": where, "target": f"{base.id} := self._index, then {back_k} back", "consumed_before_save": saved_at, "dispatch_credit": credit})
+                            else:
+                                ctx.fail(m, call, where, call,
+                                         f"retreats to {back_k} token(s) before the saved position `{base.id}`, but only {saved_at} token(s) (+{credit} dispatch credit) had been consumed "
+                                         f"when it was saved: the cursor lands before the construct this method was asked to parse (a caller that also restores its own match "
+                                         f"then retreats twice)")
+                        elif okv:
                             ctx.ok(inst, {"retreat": norm(call), "in": where, "target": f"{base.id} := self._index"})
                         elif is_param and not saved:
                             ctx.ok(inst, {"retreat": norm(call), "in": where, "target": f"parameter {base.id} (saved by the caller)"})
